@@ -552,6 +552,20 @@ func runSdbCases(t *testing.T, f *sdbFixture, rng *hx.Rng, p *hx.Proto, nOps int
 				d = f.dump(db, readCtx, nsnaps)
 			}
 			p.Emit(op, ret+" "+d)
+			// implementation-side oracle for C15: a successful commit never removes or re-types a protected account
+			if committed && ret == "ok" {
+				ak := s.ChainApp.AccountKeeper()
+				for i, nm := range f.names {
+					if !risky[nm] {
+						continue
+					}
+					before := ak.GetAccount(f.base, f.addrs[i].Bytes())
+					after := ak.GetAccount(ctx, f.addrs[i].Bytes())
+					if before != nil && (after == nil || fmt.Sprintf("%T", before) != fmt.Sprintf("%T", after)) {
+						p.Oracle("C15-protected-account", "commit removed or re-typed the protected account %s (%T -> %T)", nm, before, after)
+					}
+				}
+			}
 			// implementation-side oracle for C03: revert restores the dump taken at snapshot time
 			if strings.HasPrefix(op, "snapshot") {
 				savedDump[nsnaps-2] = d
